@@ -356,6 +356,11 @@ func runC08(ctx *Ctx, idx int) {
 		c08Viol(ctx, "valid-rejected", o, keys, map[string]interface{}{"error": fmt.Sprint(err), "max_key_len": maxLen})
 	} else {
 		ctx.Count("valid:accepted", 1)
+		// ... and what was accepted finds its own keys (every value kind and
+		// encoder, user-defined ones included)
+		if verifyAccepted(ctx, st, o, keys, vals, "accepted-but-loses-keys", map[string]interface{}{"value_kind": vals.Kind, "encoder": fmt.Sprintf("%+v", vals.Encoder())}) {
+			ctx.Count("valid:accepted_and_verified", 1)
+		}
 	}
 	if n == 0 {
 		return
